@@ -25,6 +25,7 @@ func runC15(c *Ctx) {
 	c.rule("U1", "loading succeeds only through Validate(): every possibly-nil return of LoadFromEnvironment follows configurationToSet.Validate() and returns its (wrapped) result; Load/LoadFromViper delegate to it", 3)
 	c.rule("U2", "source order in LoadFromEnvironment: MergeConfigMap(defaults) → configuration file → linkFlagKeysToStructureKeys → Unmarshal → Validate", 4)
 	c.rule("U3", "linkFlagKeysToStructureKeys: a set flag is written with Set(); the default of an unset flag is forced only where the structure key is empty", 2)
+	c.rule("U5", "a prefix is tested and removed in the letter case of the string it is removed from", 2)
 	c.rule("U4", "environment variable names: SetEnvPrefix(prefix), AutomaticEnv, key replacer separator → EnvVarSeparator; the reporting side joins upper-cased elements with the same separator", 4)
 
 	load := c.fn(cfgPkg, "LoadFromEnvironment")
@@ -239,6 +240,73 @@ func runC15(c *Ctx) {
 	c.check(sepOK && agree && upper >= 3, "U4", "config/reported-names", c.pos(det.Pos()), "prefix and path elements upper-cased and joined with "+strconvQuote(envSep)+", the separator the session's replacer produces",
 		"the names reported by DetermineConfigurationEnvironmentVariables are not built the way the session looks variables up (separator "+strconvQuote(envSep)+", upper case): they are not the names that loading honours")
 	_ = token.NoPos
+
+	// ---- U5 -----------------------------------------------------------------
+	// Prefix handling of the key/variable names: wherever a (non-constant) prefix is tested or removed, the string and the
+	// prefix are in the same letter case — a lower-cased name never starts with an upper-case prefix, so the prefix stays in,
+	// and the flag key and the reported variable name then carry it twice.
+	nPfx := 0
+	for _, f := range c.srcFuncs(cfgPkg) {
+		allInstrs(f, func(in ssa.Instruction) {
+			cl, ok := in.(*ssa.Call)
+			if !ok {
+				return
+			}
+			switch calleeFull(&cl.Call) {
+			case "strings.HasPrefix", "strings.TrimPrefix", "strings.CutPrefix", "strings.HasSuffix", "strings.TrimSuffix", "strings.CutSuffix":
+			default:
+				return
+			}
+			if _, isConst := constString(cl.Call.Args[1]); isConst {
+				return
+			}
+			nPfx++
+			a, b := c15CaseOf(cl.Call.Args[0], 0), c15CaseOf(cl.Call.Args[1], 0)
+			key := fname(outermost(f)) + "/" + cl.Call.StaticCallee().Name()
+			c.check(a == b || a == "const" || b == "const", "U5", key, c.ipos(cl), "string and prefix in the same case ("+a+")",
+				"the string is "+a+" and the prefix "+b+": with a prefix written in upper case (the usual way) the prefix is never found in the lower-cased name and stays in the key — the flag key and the reported environment variable name carry the prefix twice, and the names reported are not the names honoured")
+		})
+	}
+	c.Extra["prefix_operations"] = nPfx
+}
+
+// c15CaseOf classifies the letter case a string value is known to be in: "lower", "upper", "const", "as given" or "mixed".
+func c15CaseOf(v ssa.Value, depth int) string {
+	if depth > 8 {
+		return "as given"
+	}
+	v = resolveValue(v)
+	switch x := v.(type) {
+	case *ssa.Const:
+		return "const"
+	case *ssa.Call:
+		switch calleeFull(&x.Call) {
+		case "strings.ToLower":
+			return "lower"
+		case "strings.ToUpper":
+			return "upper"
+		case "strings.TrimPrefix", "strings.TrimSuffix", "strings.TrimSpace", "strings.Trim":
+			return c15CaseOf(x.Call.Args[0], depth+1)
+		}
+	case *ssa.Phi:
+		r := ""
+		for _, e := range x.Edges {
+			k := c15CaseOf(e, depth+1)
+			if k == "const" {
+				continue
+			}
+			if r == "" {
+				r = k
+			} else if r != k {
+				return "mixed"
+			}
+		}
+		if r == "" {
+			return "const"
+		}
+		return r
+	}
+	return "as given"
 }
 
 func strconvQuote(s string) string { return "\"" + s + "\"" }
